@@ -83,10 +83,25 @@ func randHistory(c *hx.Ctx, nops, npool int, long bool) Input {
 		last[o.K] = &oc
 	}
 	// backing store: some of the touched keys (sometimes already holding the final value) and others
+	// (a third of the touched keys; half of those hold a value that the history also writes, so that
+	// "written with the value the store already has" and "restored to the original value" occur)
 	for _, e := range lastWriteSorted(in.Ops) {
-		if c.Intn(3) == 0 {
-			in.Base = append(in.Base, [2]string{hx.Hex(e.k), hx.Hex(c.Bytes(1 + c.Intn(6)))})
+		if c.Intn(3) != 0 {
+			continue
 		}
+		v := hx.Hex(c.Bytes(1 + c.Intn(6)))
+		if c.Intn(2) == 0 {
+			var written []string
+			for _, o := range in.Ops {
+				if o.K == hx.Hex(e.k) && !o.Del && o.V != "" {
+					written = append(written, o.V)
+				}
+			}
+			if len(written) > 0 {
+				v = written[c.Intn(len(written))]
+			}
+		}
+		in.Base = append(in.Base, [2]string{hx.Hex(e.k), v})
 	}
 	return in
 }
